@@ -42,6 +42,11 @@ pub struct Scn {
     /// tower Buffer or `call_all` does)
     #[serde(default)]
     pub sole_handle: bool,
+    /// callers whose inner call (if they lead) sends a request for another key back through the
+    /// coalescing stack from inside `call()` and awaits it before it goes on (a resolver that
+    /// needs a parent record)
+    #[serde(default)]
+    pub reentrant: Vec<u32>,
 }
 
 /// Many keys in flight together (any table inside the layer has to grow while entries are
@@ -69,7 +74,7 @@ fn gen_many_keys(rng: &mut Rng) -> Scn {
             drop_unpolled_after_ms: None,
         });
     }
-    Scn { callers, knobs: SchedKnobs::gen(rng, false, 60), owner_dropped: false, sole_handle: false }
+    Scn { callers, knobs: SchedKnobs::gen(rng, false, 60), owner_dropped: false, sole_handle: false, reentrant: vec![] }
 }
 
 pub fn gen(rng: &mut Rng) -> Scn {
@@ -102,6 +107,7 @@ pub fn gen(rng: &mut Rng) -> Scn {
         knobs: SchedKnobs::gen(rng, faulty, 60),
         owner_dropped: !two_services && rng.chance(1, 5),
         sole_handle: false,
+        reentrant: vec![],
     }
 }
 
@@ -109,6 +115,10 @@ pub fn gen_any(rng: &mut Rng) -> Scn {
     let mut s = gen(rng);
     if !s.owner_dropped && s.callers.iter().all(|c| c.key < 100) && rng.chance(1, 5) {
         s.sole_handle = true;
+    }
+    if !s.owner_dropped && !s.sole_handle && rng.chance(1, 6) {
+        let n = s.callers.len() as u64;
+        s.reentrant = (0..rng.range(1, 3)).map(|_| rng.below(n) as u32).collect();
     }
     s
 }
@@ -119,6 +129,7 @@ pub fn valid(s: &Scn) -> bool {
     }
     s.callers.len() >= 1
         && s.callers.len() <= 12
+        && (s.reentrant.is_empty() || (!s.owner_dropped && !s.sole_handle && s.reentrant.len() <= 4 && s.reentrant.iter().all(|i| (*i as usize) < s.callers.len())))
         && s.callers.iter().all(|c| c.start_ms <= 300 && c.key % 100 >= 1 && c.key % 100 <= 16 && c.key / 100 <= 1 && c.beh.lat_ms <= 200 && c.beh.yields <= 4 && c.hold_ms <= 100 && c.drop_unpolled_after_ms.map(|d| d <= 50).unwrap_or(true))
         && s.knobs.jumps.len() <= 3
         && s.knobs.jumps.iter().all(|j| j.0 <= 300 && j.1 <= 200)
@@ -167,6 +178,33 @@ pub fn run(s: &Scn, ctx: &mut RunCtx) -> RunOutput {
         };
         let taken = std::rc::Rc::new(std::cell::Cell::new(0usize));
         let n_callers = scn.callers.len();
+        if !scn.reentrant.is_empty() {
+            // nested requests: id 500+i, a key of their own (60), through a clone of service 0
+            world::with(|w| {
+                for i in &scn.reentrant {
+                    let svc = (scn.callers[*i as usize].key / 100) as u8;
+                    w.script.nested.insert((svc, *i), Req { id: 500 + *i, key: 60 });
+                    w.script.by_req.insert((0, 500 + *i), vec![Behaviour { lat_ms: 5, out: Outcome::Ok, yields: 0 }]);
+                }
+            });
+            let proto = base.as_ref().unwrap().clone();
+            crate::inner::NESTED.with(|n| {
+                *n.borrow_mut() = Some(std::rc::Rc::new(move |r: Req| {
+                    let mut s = proto.clone();
+                    let wk = std::task::Waker::noop();
+                    match s.poll_ready(&mut std::task::Context::from_waker(wk)) {
+                        std::task::Poll::Ready(Ok(())) => {
+                            let f = s.call(r);
+                            Some(Box::pin(async move {
+                                let _ = f.await;
+                                drop(s);
+                            }) as crate::inner::NestedFut)
+                        }
+                        _ => None,
+                    }
+                }))
+            });
+        }
         let mut defs = vec![];
         for (i, c) in scn.callers.iter().enumerate() {
             let mut early = if lazy || sole { None } else { Some(if c.key / 100 == 1 { base_b.as_ref().unwrap().clone() } else { base.as_ref().unwrap().clone() }) };
@@ -244,6 +282,7 @@ pub fn run(s: &Scn, ctx: &mut RunCtx) -> RunOutput {
     };
     let mut idle = || {};
     let rep = run_sim(cfg, &mut ctx.chooser, setup, Hooks { step: &mut step, idle: &mut idle });
+    crate::inner::NESTED.with(|n| *n.borrow_mut() = None);
     let log = world::with(|w| std::mem::take(&mut w.log));
     let calls = inner_calls(&log);
     let jump = s.knobs.total_jump() * 1000;
